@@ -350,7 +350,7 @@ def finish(pid, tier, verif_seed, meta, records, harness_errors, work, t_start, 
         e = kf_ids[fid]
         print(f"KNOWN-FINDING: property={pid} {e['what']} [id={fid}; met in {len(runs_)} run(s), e.g. run {runs_[0]}]")
     for inv, msg, path, cnt in violation_lines:
-        print(f"[{pid}] violation class {inv} in {cnt} run(s): {msg}")
+        print(f"[{pid}] violation class {inv} ({cnt} occurrence(s)): {msg}")
         print(f"VIOLATION property={pid} replay={path}")
     if violation_lines:
         return 1
